@@ -26,7 +26,10 @@ TABLE_OF = {
 JREFS = ("junction", "from_junction", "to_junction", "return_junction", "flow_junction", "controlled_junction")
 
 RTOL = {"relabel": 1e-10, "permute": 1e-9, "recreate": 1e-9}
-ATOL = {"relabel": 1e-10, "permute": 1e-9, "recreate": 1e-9}
+# absolute floor: relabelling leaves the pit identical (only the summation order inside _sum_by_group_np may change);
+# a row permutation changes the elimination order of spsolve, and near-stagnant branches of a mesh amplify that
+# round-off to ~1e-9 in velocities of ~1e-5 m/s (observed), hence 1e-8
+ATOL = {"relabel": 1e-10, "permute": 1e-8, "recreate": 1e-8}
 
 
 def labels_of(spec):
@@ -131,18 +134,79 @@ def compare(kind, spec_a, net_b_builder, kw, index_map=None):
     st_a, msg_a, snap_a = run_and_snap(net_a, kw)
     net_b = net_b_builder()
     st_b, msg_b, snap_b = run_and_snap(net_b, kw)
+    if st_a != "ok" and st_b != "ok":
+        return "skip", [], st_a, st_b          # both fail (the exception class of a singular system may differ)
     if st_a != st_b:
         return "outcome", [("outcome", "%s (%s) vs %s (%s)" % (st_a, msg_a[:80], st_b, msg_b[:80]))], st_a, st_b
-    if st_a != "ok":
-        return "skip", [], st_a, st_b
     diffs = drive.same_results(snap_a, snap_b, rtol=RTOL[kind], atol=ATOL[kind], index_map=index_map)
+    diffs = [d for d in diffs if not stagnant_noise(d, snap_a)]
+    if diffs and kind in ("permute", "recreate") and not kw.get("tol_p"):
+        # a different elimination order perturbs the Newton iterates; at round-off tolerances the difference of two
+        # equivalent systems shrinks to round-off, a difference of the assembled systems persists
+        from harness import c0406_common as cm
+        sa2, _, snap_a2 = run_and_snap(net_a, cm.tight(kw))
+        sb2, _, snap_b2 = run_and_snap(net_b, cm.tight(kw))
+        if sa2 == "ok" and sb2 == "ok":
+            snap_a, snap_b = snap_a2, snap_b2
+            diffs = drive.same_results(snap_a, snap_b, rtol=RTOL[kind], atol=ATOL[kind], index_map=index_map)
+            diffs = [d for d in diffs if not stagnant_noise(d, snap_a)]
+    LAST_SNAPS[:] = [snap_a, snap_b]
     return ("diff" if diffs else "same"), diffs, st_a, st_b
 
 
-def report(ctx, kind, spec, extra, kw, diffs):
+LAST_SNAPS = []
+ILL_CONDITIONED = ("lambda", "reynolds")
+STAGNANT_MDOT = 1e-6
+
+
+def stagnant_noise(diff, snap_a):
+    """lambda = 64/Re and Re of a branch without flow amplify the rounding noise of a mass flow that is zero up to
+    1e-16; these two derived columns are compared only on rows that carry flow"""
+    t, d = diff
+    col = d.split("[")[0]
+    if col not in ILL_CONDITIONED or "mdot_from_kg_per_s" not in snap_a.get(t, {}).get("cols", {}):
+        return False
+    try:
+        lab = int(d.split("[")[1].split("]")[0])
+        row = snap_a[t]["index"].index(lab)
+        m = snap_a[t]["cols"]["mdot_from_kg_per_s"][row]
+    except (ValueError, IndexError):
+        return False
+    return m is not None and abs(m) < STAGNANT_MDOT
+
+
+MEAN_COLUMNS = ("lambda", "reynolds", "dp_friction_loss_bar", "v_mean_m_per_s", "vdot_m3_per_s", "vdot_norm_m3_per_s")
+
+
+def cancellation_cause(diffs, snaps):
+    """all differences are small relative errors (<= 1e-3) in section-mean columns of a table in which another row
+    of the same column is >= 1e6 times larger: the cumsum-difference of _sum_by_group_sorted cancels"""
+    import re
+    for t, d in diffs:
+        m = re.match(r"(\w+)\[(-?\d+)\]: (\S+) vs (\S+)$", d)
+        if not m or m.group(1) not in MEAN_COLUMNS:
+            return False
+        try:
+            x, y = float(m.group(3)), float(m.group(4))
+        except ValueError:
+            return False
+        if abs(x - y) > 1e-3 * max(abs(x), abs(y)):
+            return False
+        big = 0.0
+        for sn in snaps:
+            vals = [abs(v) for v in sn.get(t, {}).get("cols", {}).get(m.group(1), []) if v is not None]
+            big = max([big] + vals)
+        if big < 1e6 * max(abs(x), abs(y)):
+            return False
+    return True
+
+
+def report(ctx, kind, spec, extra, kw, diffs, snaps=()):
     t, d = diffs[0]
     col = d.split("[")[0] if "[" in d else d
     sig = {"transform": kind, "table": t, "column": col}
+    if snaps and cancellation_cause(diffs, snaps):
+        sig = {"transform": kind, "table": t, "cause": "cumsum_cancellation"}
     what = ("%s: %s differs for the same element after %s (%d differences, first: %s); options %r"
             % (kind, t, {"relabel": "an injective relabelling", "permute": "a row permutation",
                          "recreate": "re-creation in another order"}[kind], len(diffs), d, kw))
@@ -178,13 +242,13 @@ def one_case(ctx, kind, spec, rng, kw):
     d = gen.describe(spec)
     ctx.case({"monitor": kind, "net": spec, "options": kw}, nontrivial and status in ("same", "diff", "outcome"))
     if status in ("diff", "outcome"):
-        report(ctx, kind, spec, extra, kw, diffs)
+        report(ctx, kind, spec, extra, kw, diffs, snaps=list(LAST_SNAPS) if status == "diff" else ())
     return status
 
 
 def monitors(ctx, widen=False):
     rng = ctx.rng
-    n = (14 if ctx.quick else 330)
+    n = (24 if ctx.quick else 330)
     if widen:
         n *= 3
     for i in range(n):
@@ -282,4 +346,4 @@ def replay(ctx, rp):
     print("replay %s: %s %s" % (kind, status, diffs[:3]))
     if status in ("diff", "outcome"):
         report(ctx, kind, rp["net"], {k: v for k, v in rp.items() if k not in ("kind", "net", "options")},
-               rp["options"], diffs)
+               rp["options"], diffs, snaps=list(LAST_SNAPS) if status == "diff" else ())
